@@ -248,6 +248,17 @@ for _h in _ALL:
     if _h["name"].startswith("c06_msg_") and _h["name"] != "c06_msg_header_only":
         _h["timeout"] = 2400  # two framed submessages: did not finish in 600 s on the loaded box
 
+# quick-tier budget: heavy or redundant instances go to the thorough tier
+_TO_THOROUGH = {"c06_parse_inforeply_4_le", "c06_finding_numset_iter_overflow_sn", "c06_numset_iter_parsed_fn_12_le", "c06_plist_parse_12_le",
+                "c06_submsg_datafrag_l40_otn36", "c06_plist_parse_8_be", "c06_data_parse_24_qd", "c06_finding_latent_rproxy_mark_frags_beyond",
+                "c06_frag_step_existing_d8_p16", "c06_datafrag_parse_40_o37", "c06_data_parse_28_d_o25", "c06_submsg_heartbeat_l32_otn29"}
+_TO_QUICK = {"c06_finding_latent_rproxy_mark_frags_zero"}
+for _h in _ALL:
+    if _h["name"] in _TO_THOROUGH:
+        _h["tier"] = "thorough"
+    if _h["name"] in _TO_QUICK:
+        _h["tier"] = "quick"
+
 PROP = {
     "title": "no datagram crashes, hangs or bloats a participant (parsers and hostile submessage fields)",
     "design_ref": "DESIGN.md section 3, C06",
@@ -289,7 +300,7 @@ PROP = {
         "stub (Kani only): Vec::with_capacity / Vec::push -> concrete capacity 16; vec![x; n] -> capacity 9 (BitVec blocks) in the fragment harnesses",
         "stub: std::fmt::format -> empty String; Timestamp::now -> counter; BytesMut::freeze -> Arc-backed Bytes (Kani only)",
         "stub (Kani only, c06_datafrag_parse_* except _realdiv): DataFrag::total_number_of_fragments -> ANY value (over-approximation)",
-        "finding flags KF_C06_* are local placeholders (true = open) until generated from known_findings.json",
+        "finding flags KF_C06_* come from /verif/known_findings.json (true while the finding is open): three of the five findings were repaired in /repo (fix: commits fb9783f, 702b31d), their classes are no longer excluded",
     ],
     "trusted": ["/verif/shim/collections.rs (BTreeMap stand-in in FragmentAssembler / RtpsReaderProxy)", "/verif/env/mod.rs Vec stubs",
                 "speedy 0.8.7 stream reader (encoded as is), bytes 1.12 (encoded as is), bit-vec 0.8 (encoded as is)"],
@@ -298,7 +309,7 @@ PROP = {
                     "and the real FragmentAssembler / RtpsReaderProxy::mark_frags_requested on parsed-but-hostile field values."),
     "technique": "Kani/CBMC bounded symbolic model checking of the real decoders on arbitrary bytes at concrete buffer lengths, and of the fragment assembler by an inductive step over hostile DataFrag fields",
     "level_text": "SAT-solver verdict over all byte contents at each concrete buffer length / all hostile field values at each concrete allocation shape.",
-    "level_note": ("Trusted: Kani/CBMC/CaDiCaL, container shim, Vec / speedy entry-point stand-ins. OPEN FINDINGS (c06_finding_*): NumberSet iterator overflow, "
-                   "DATAFRAG fragment-count overrun and inconsistent-fragment underflow in AssemblyBuffer::insert_frags, data_size-sized allocation, "
-                   "latent mark_frags_requested panics."),
+    "level_note": ("Trusted: Kani/CBMC/CaDiCaL, container shim, Vec / speedy entry-point stand-ins. Findings: NumberSet iterator overflow, DATAFRAG fragment-count overrun and "
+                   "inconsistent-fragment underflow were repaired in /repo (the c06_finding_* harnesses now pass and the general harnesses include those classes); "
+                   "OPEN: data_size-sized allocation in AssemblyBuffer::new, latent mark_frags_requested panics (KNOWN-FINDING lines)."),
 }
